@@ -105,6 +105,12 @@ class CaseAPI:
     def prove(self, clause, f, **info):
         self.ctx.prove(f"{self.case_id}:{clause}", f, info)
 
+    def prove_lemma(self, clause, lean_file, theorem):
+        """a lemma over the contracts, stated and proved in Lean 4 / Mathlib (lean/<file>): checked by running `lean` on the file on every run; accepted
+        only if Lean exits 0, reports no error / sorry, and `#print axioms <theorem>` lists nothing beyond propext, Classical.choice, Quot.sound.
+        A failing lemma makes the obligation undecided (a proof failure is not a counterexample)."""
+        self.ctx.prove(f"{self.case_id}:{clause}", z3.BoolVal(True), {"_lean": (lean_file, theorem)})
+
     def prove_identity(self, clause, lhs, rhs, assumptions=None, cas_first=False, **info):
         """lhs == rhs between real terms; if the SMT solver cannot close it, the CAS back end
         (sympy, see engine/cas.py) is asked; `assumptions`: {symbol name: {positive: True, range: (a, b)}}"""
@@ -210,6 +216,26 @@ def z3_to_py(v):
 
 
 # ------------------------------------------------------------------------- solving one VC ----
+def run_lean(lean_file, theorem):
+    import re
+    import shutil
+    import subprocess
+    path = os.path.join(os.path.dirname(os.path.dirname(os.path.abspath(__file__))), "lean", lean_file)
+    t0 = time.time()
+    if shutil.which("lean") is None or not os.path.exists(path):
+        return "unknown", 0.0, "lean or the lemma file is not available"
+    try:
+        p = subprocess.run(["lean", path], capture_output=True, text=True, timeout=900)
+    except subprocess.TimeoutExpired:
+        return "unknown", time.time() - t0, "lean timed out"
+    out = (p.stdout or "") + (p.stderr or "")
+    m = re.search(r"'" + re.escape(theorem) + r"' depends on axioms: \[([^\]]*)\]", out)
+    axioms = [x.strip() for x in m.group(1).split(",")] if m else None
+    no_ax = re.search(r"'" + re.escape(theorem) + r"' does not depend on any axioms", out) is not None
+    ok = p.returncode == 0 and "error" not in out and "sorry" not in out and (no_ax or (axioms is not None and set(axioms) <= {"propext", "Classical.choice", "Quot.sound"}))
+    return ("unsat" if ok else "unknown"), time.time() - t0, out.strip()[-600:]
+
+
 def solve_vc(pc, formula, timeout_ms, symbols):
     """returns (status, model_dict|None, seconds, backend) ; status in unsat/sat/unknown.
     Portfolio: z3 default -> z3 `qfnia` tactic (nonlinear integer VCs) -> cvc5; `unknown` from all = undecided."""
@@ -390,7 +416,11 @@ def run_case(cd: CaseDef, params, case_id):
             for ob in obs:
                 n_paths += 1
                 st = None
-                if ob.info.get("_cas") is not None and ob.info.get("_cas_first"):
+                if ob.info.get("_lean") is not None:
+                    st, dt, detail = run_lean(*ob.info["_lean"])
+                    md, backend = None, "lean"
+                    ob.info["lean_output"] = detail
+                if st is None and ob.info.get("_cas") is not None and ob.info.get("_cas_first"):
                     # large polynomial identities: the CAS normal form is much faster than the SMT solver's nonlinear core
                     from . import cas
                     lhs, rhs, asm = ob.info["_cas"]
@@ -410,7 +440,7 @@ def run_case(cd: CaseDef, params, case_id):
                         st, md, backend = "unsat", None, "sympy"
                     else:
                         ob.info["cas_detail"] = why
-                if st == "unknown" and time.time() - t0 < cd.timeout * 0.7:
+                if st == "unknown" and time.time() - t0 < cd.timeout * 0.7 and ob.info.get("_lean") is None:
                     # second attempt with a 4x budget (verdicts must not flip to undecided on a busy machine)
                     st, md, dt2, backend = solve_vc(ob.pc, ob.formula, cd.solver_timeout * 4, symbols)
                     dt += dt2
